@@ -939,7 +939,16 @@ impl<'a, Input: InputIndexer> MatchAttempter<'a, Input> {
 
                     Insn::EnterLoop(fields) => {
                         // Entering a loop, not re-entering it.
-                        self.s.loops.mat(fields.loop_id as usize).iters = 0;
+                        // The reset must be undone if we backtrack to a point before this entry
+                        // (an enclosing loop may have a pending alternative from an earlier iteration).
+                        let loop_data = self.s.loops.mat(fields.loop_id as usize);
+                        if loop_data.iters != 0 {
+                            self.bts.push(BacktrackInsn::SetLoopData {
+                                id: fields.loop_id,
+                                data: *loop_data,
+                            });
+                        }
+                        loop_data.iters = 0;
                         match self.run_loop(fields, pos, ip) {
                             Some(next_ip) => {
                                 ip = next_ip;
